@@ -1,5 +1,5 @@
 (* Properties/C08.v — !notnew (and command-line overrides) can change but never create paths. *)
-From AY Require Import Model.Merge Proofs.NotNew Proofs.FactsOk Model.Cmdline Proofs.CmdlineLemmas.
+From AY Require Import Model.Merge Proofs.NotNew Proofs.FactsOk Model.Cmdline Proofs.CmdlineLemmas Model.Loader Proofs.MergePlain Proofs.Override Proofs.OverrideLoad.
 
 (* merging a key that does not exist yet, offered by a node that does not allow new paths, is a MergeError —
    for every older container (mapping or list; for a list: every index that is not an existing one), every rec, every depth *)
@@ -33,6 +33,34 @@ Theorem C08_cmdline_path : forall gs, Forall (fun g => group_ok g = true) gs -> 
   inline_path (join true (comps_of gs)) = Some (comps_of gs).
 Proof. exact inline_path_of_nodepath. Qed.
 Print Assumptions C08_cmdline_path.
+
+(* The override document  !notnew { k1: { k2: ... value } }  (what the command line writes), loaded and merged into ANY plain
+   base document (any nesting, any sibling content, any fuel that suffices) along a path through mappings and list
+   indices (0 <= i < length):
+   - if the path exists, the merge succeeds and the result is the base with exactly that path set to the value - every
+     other key, at every level, with its content and order, is what it was (pset rewrites one entry per level);
+   - if a key of the path is missing in the deepest existing mapping, or an index lies beyond the end of a list, the
+     merge is a MergeError: no entry is created. *)
+Theorem C08_override_sets_exactly_that_path : forall c k ks v fuel p s,
+  Old s -> (S (length ks) < fuel)%nat -> dpath s (k :: ks) = true ->
+  exists n w, on_merge [] fuel p s (load_doc c (override_doc k ks v)) = Ok (n, w) /\ erase n = pset (erase s) (k :: ks) (PS v).
+Proof. exact cmdline_override_sets_exactly. Qed.
+Print Assumptions C08_override_sets_exactly_that_path.
+
+Theorem C08_override_mistyped_path_is_an_error : forall c k ks v fuel p s,
+  Old s -> (S (length ks) < fuel)%nat -> misses s (k :: ks) = true ->
+  exists q, on_merge [] fuel p s (load_doc c (override_doc k ks v)) = Err EMerge q.
+Proof. exact cmdline_override_mistyped. Qed.
+Print Assumptions C08_override_mistyped_path_is_an_error.
+
+(* non-vacuity:  model.layers[1].k=9  over a base with mappings and a list; a mistyped key; an index beyond the end *)
+Example C08_override_example :
+  let base := inject None None (Some true) 0 None
+                (PD [(KS 1, PD [(KS 2, PS (SInt 1)); (KS 3, PL [PS (SInt 7); PD [(KS 4, PS (SInt 8))]])]); (KS 5, PS (SInt 2))]) in
+  Old base /\ dpath base [KS 1; KS 3; KI 1; KS 4] = true /\ misses base [KS 1; KS 9] = true /\ misses base [KS 1; KS 3; KI 2; KS 4] = true /\
+  pset (erase base) [KS 1; KS 3; KI 1; KS 4] (PS (SInt 9)) =
+    PD [(KS 1, PD [(KS 2, PS (SInt 1)); (KS 3, PL [PS (SInt 7); PD [(KS 4, PS (SInt 9))]])]); (KS 5, PS (SInt 2))].
+Proof. split; [apply inject_old|]. repeat split; vm_compute; reflexivity. Qed.
 
 Example C08_cmdline_example :
   inline_yaml ["a"; "."; "b"; "["; "1"; "]"; "."; "c"; "="; "5"]%char
